@@ -64,7 +64,7 @@ func (code128Encoder) encodeWithHints(contentsStr string, hints map[gozxing.Enco
 	// Check for forced code set hint.
 	forcedCodeSet := -1
 	if codeSetHint, ok := hints[gozxing.EncodeHintType_FORCE_CODE_SET]; ok {
-		switch s := codeSetHint.(string); s {
+		switch s, _ := codeSetHint.(string); s { // a non-string value falls through to the error below
 		case "A":
 			forcedCodeSet = code128CODE_CODE_A
 			break
